@@ -115,7 +115,7 @@ var props = []*core.Property{
 		technique:  "finite-domain tabulation; path-sensitive error typestate; field-store inventory on the csv reader",
 		expl:       "decides the truncation and acceptance logic around encoding/csv and the JSON scanner",
 		notCovered: []string{"behaviour of encoding/csv at every cut position"},
-		rules:      []*core.Rule{ruleDropLastLine, ruleInspectedGuard, ruleLineThresholds, ruleTruncTable, ruleSnapshot, rulePools, ruleFailProp, ruleReader, ruleLimitSlice, ruleWalkDiscipline}}),
+		rules:      []*core.Rule{ruleDropLastLine, ruleInspectedGuard, ruleLineThresholds, ruleTruncTable, ruleSnapshot, rulePools, ruleFailProp, ruleReader, ruleLimitSlice, ruleWalkDiscipline, ruleJSONNodes}}),
 	mk(pd{id: "C14", level: "other",
 		levelText:  "Extend builds a fresh node from its parameters with parent = receiver and publishes [new] ++ old by one store under the write lock, old children read under the same lock; package-level Extend delegates to the root; lookup visits type, every alias and every child; the walk is first-match over whatever children holds; results are clones.",
 		technique:  "shape rules on Extend's SSA; lockset regions; origin analysis",
